@@ -87,6 +87,12 @@ class Oracle(Hooks):
         self.blobs = {0: [], 1: [], 2: []}       # node -> [(instance generation, blob)]
 
     def after_step(self, w, step, ev):
+        if ev["op"] in ("persist", "serialize") and ev["out"].startswith("exc:") and ev["n"] in self.blobs:
+            n = w.nodes[ev["n"]]
+            if isinstance(n.out, bytes):
+                self.flag(w, "serialize-raised", "serialize() raised %s on a started instance (%d restore cycle(s) so far)"
+                          % (ev["out"][4:], n.restores), cls=n.cls, exc=ev["out"][4:], restored=n.restores > 0)
+            return
         if ev["op"] in ("persist", "serialize") and ev["out"] == "blob" and ev["n"] in self.blobs:
             n = w.nodes[ev["n"]]
             blob = ev["blob"]
